@@ -196,8 +196,11 @@ uint32_t File::defaultLogContainerSize() const {
 void File::setDefaultLogContainerSize(uint32_t defaultLogContainerSize) {
     m_uncompressedFile.setDefaultLogContainerSize(defaultLogContainerSize);
 
-    /* the buffer holds one log container (as set up in the constructor): a container larger than the buffer is never filled */
-    m_uncompressedFile.setBufferSize(defaultLogContainerSize);
+    /* the buffer holds one log container (as set up in the constructor): a container larger than the buffer is never filled.
+     * Not during a session: a worker may be waiting for a chunk of the previous size, which a smaller buffer never holds
+     * (the stream raises its buffer by itself when a larger chunk is requested). */
+    if (!is_open())
+        m_uncompressedFile.setBufferSize(defaultLogContainerSize);
 }
 
 ObjectHeaderBase * File::createObject(ObjectType type) {
